@@ -4,6 +4,7 @@ package runner
 import (
 	"context"
 	"crypto/sha256"
+	"encoding/json"
 	"encoding/hex"
 	"fmt"
 	"hash/fnv"
@@ -129,8 +130,7 @@ func run(p *plan.Plan, res *Result) {
 	ctx, cancel := context.WithCancel(context.Background())
 	s.cancel = cancel
 	lg := sut.NewLogger(w)
-	res.Gauges = append(res.Gauges, readGauges())
-	res.GaugeSteps = append(res.GaugeSteps, -1)
+	s.recGauges("baseline")
 
 	if p.Scen.Loader != nil {
 		res.Loader = runLoader(ctx, p, w, lg)
@@ -192,8 +192,7 @@ func run(p *plan.Plan, res *Result) {
 func finish(s *sched) {
 	w, res := s.w, s.res
 	synctest.Wait()
-	res.Gauges = append(res.Gauges, readGauges())
-	res.GaugeSteps = append(res.GaugeSteps, w.Step()+1)
+	s.recGauges("final")
 	for _, c := range s.clis {
 		if c.real != nil {
 			res.RC = append(res.RC, c.real.events...)
@@ -235,6 +234,13 @@ func bucket(n int64) int {
 	default:
 		return 8
 	}
+}
+
+// recGauges records the four in-flight gauges in the history.
+func (s *sched) recGauges(tag string) {
+	g := readGauges()
+	b, _ := json.Marshal(g)
+	s.w.Rec(world.Ev{Actor: "sched", Kind: "gauge", S: tag + "|" + string(b)})
 }
 
 type event struct {
@@ -333,8 +339,7 @@ func (s *sched) loop() {
 		}
 		s.tap()
 		if s.p.Property == "C20" {
-			s.res.Gauges = append(s.res.Gauges, readGauges())
-			s.res.GaugeSteps = append(s.res.GaugeSteps, step)
+			s.recGauges("step")
 		}
 		ev := s.enabled(step)
 		canAdvance := s.nextDeadline() > 0
